@@ -8,13 +8,14 @@ variable {af : Bool}
 
 /-- side conditions on the parameters and choosers: thresholds are positive, the big/small
 decision never sends an empty range into a parallel step, the sampler draws `count` indices
-below `n` (`rng() % n`), the tree depth is one the classifier classes support -/
+below `n` (`rng() % n`), the tree depth is one the classifier classes support
+(`switch (treebits)` of `pre_to_levelorder` has cases 1..15; bucket ids must fit `std::uint16_t`) -/
 structure EnvOk (env : Env) : Prop where
   ins : 1 ≤ env.p.inssort
   small : 1 ≤ env.p.smallsort
   big : ∀ n, env.isBig n = true → 1 ≤ n
   tb1 : 1 ≤ env.p.treebits
-  tb31 : env.p.treebits ≤ 31
+  tb15 : env.p.treebits ≤ 15
   samplerLen : ∀ n cnt, (env.sampler n cnt).length = cnt
   samplerLt : ∀ n cnt, 0 < n → ∀ i ∈ env.sampler n cnt, i < n
 
@@ -342,7 +343,7 @@ theorem mkqsBody_safe {env : Env} (henv : EnvOk env) {rec : Rec} {p : Str} {strs
   have hreqS : Safe af (mkqsEq env rec eq p.length pivot) (SortedLcp eq) := by
     unfold mkqsEq
     by_cases hlow : lowByte pivot = 0
-    · simp only [hlow, if_true]
+    · simp only [hlow, if_true, u8_lcpKeyDepth]
       apply Safe.pure
       obtain ⟨s0, rest, hs0⟩ := List.exists_cons_of_ne_nil heqne
       have hall : ∀ a ∈ eq, ∀ b ∈ eq, a = b ∧ a.length = p.length + lcpKeyDepth pivot := by
@@ -387,8 +388,8 @@ theorem mkqsBody_safe {env : Env} (henv : EnvOk env) {rec : Rec} {p : Str} {strs
       rw [BitVec.lt_def] at *; omega
     · exact keyLt_strLe (hreq a ha) (hrgt b hb) ⟨pivot, k, (meq a ha).2, hk1, hk2⟩
   -- first seam: max_lt is the key of the last string of the sorted `<` part
-  have hv1 : lt ≠ [] → p.length + lcpKeyType ((keys.filter (· < pivot)).foldl (fun a b => if a < b then b else a) 0) pivot =
-      lcp ((rlt.out.getLast?).getD []) ((req.out.head?).getD []) := by
+  have hv1 : lt ≠ [] → lcpT (p.length + lcpKeyType ((keys.filter (· < pivot)).foldl (fun a b => if a < b then b else a) 0) pivot) =
+      lcpT (lcp ((rlt.out.getLast?).getD []) ((req.out.head?).getD [])) := by
     intro hltne
     have hrne : rlt.out ≠ [] := by
       intro e; have := hgl.1.length_eq; rw [e] at this
@@ -454,7 +455,7 @@ theorem mkqsBody_safe {env : Env} (henv : EnvOk env) {rec : Rec} {p : Str} {strs
       apply BitVec.eq_of_toNat_eq
       rw [BitVec.le_def] at h1 h2; omega
     rw [hmaxeq, hz, hy]
-    exact (keyLt_lcp (hrlt z hzlt) (hreq y hyeq) hkz (meq y hyeq).2 hkzlt).symm
+    exact congrArg lcpT (keyLt_lcp (hrlt z hzlt) (hreq y hyeq) hkz (meq y hyeq).2 hkzlt).symm
   generalize hmaxdef : (keys.filter (· < pivot)).foldl (fun a b => if a < b then b else a) 0 = maxLt at hv1 ⊢
   have g1 := glue_good hgl hge heqne hcross1 _ hv1
   -- second seam
@@ -468,8 +469,8 @@ theorem mkqsBody_safe {env : Env} (henv : EnvOk env) {rec : Rec} {p : Str} {strs
     have el : mkqsLcp p.length pivot maxLt
         ((keys.filter (pivot < ·)).foldl (fun a b => if b < a then b else a) (BitVec.allOnes 64))
         lt.length eq.length ([] : List Str).length ((rlt.append req).append rgt).lcp =
-        rlt.lcp ++ req.lcp.set 0 (if lt = [] then (req.lcp.head?).getD 0 else p.length + lcpKeyType maxLt pivot) := by
-      simp only [Res.append, hrl, List.append_nil, mkqsLcp, List.length_nil, Nat.lt_irrefl, if_false, gt_iff_lt]
+        rlt.lcp ++ req.lcp.set 0 (if lt = [] then (req.lcp.head?).getD 0 else lcpT (p.length + lcpKeyType maxLt pivot)) := by
+      simp only [Res.append, hrl, List.append_nil, mkqsLcp, List.length_nil, Nat.lt_irrefl, if_false, gt_iff_lt, u8_lcpKeyType]
       by_cases hlte : lt = []
       · subst hlte
         simp only [List.length_nil, Nat.lt_irrefl, if_false, if_true, set_head_self]
@@ -481,8 +482,8 @@ theorem mkqsBody_safe {env : Env} (henv : EnvOk env) {rec : Rec} {p : Str} {strs
       intro e
       have : rgt.lcp.length = gt.length := by rw [hgg.2.2.1, hgg.1.length_eq]
       rw [e] at this; exact hgtne (List.length_eq_zero_iff.1 this.symm)
-    have hv2 : lt ++ eq ≠ [] → p.length + lcpKeyType pivot ((keys.filter (pivot < ·)).foldl (fun a b => if b < a then b else a) (BitVec.allOnes 64)) =
-        lcp (((rlt.out ++ req.out).getLast?).getD []) ((rgt.out.head?).getD []) := by
+    have hv2 : lt ++ eq ≠ [] → lcpT (p.length + lcpKeyType pivot ((keys.filter (pivot < ·)).foldl (fun a b => if b < a then b else a) (BitVec.allOnes 64))) =
+        lcpT (lcp (((rlt.out ++ req.out).getLast?).getD []) ((rgt.out.head?).getD [])) := by
       intro _
       have hqne : req.out ≠ [] := by
         intro e; have := hge.1.length_eq; rw [e] at this
@@ -547,7 +548,7 @@ theorem mkqsBody_safe {env : Env} (henv : EnvOk env) {rec : Rec} {p : Str} {strs
         have h2 := key_mono (hrgt y hygt) (hrgt s hs) hky hsk hle
         exact BitVec.eq_of_toNat_eq (Nat.le_antisymm (BitVec.le_def.1 h1) (BitVec.le_def.1 h2))
       rw [hmineq, List.getLast?_append, hz, hy]
-      exact (keyLt_lcp (hreq z hzeq) (hrgt y hygt) (meq z hzeq).2 hky hkygt).symm
+      exact congrArg lcpT (keyLt_lcp (hreq z hzeq) (hrgt y hygt) (meq z hzeq).2 hky hkygt).symm
     have g2 := glue_good (A := lt ++ eq) (B := gt) g1 hgg hgtne hcross2 _ hv2
     have hfin : SortedLcp strs _ := ⟨g2.1.trans hperm, g2.2.1, g2.2.2⟩
     have eo : ((rlt.append req).append rgt).out = rlt.out ++ req.out ++ rgt.out := by simp [Res.append]
@@ -555,10 +556,10 @@ theorem mkqsBody_safe {env : Env} (henv : EnvOk env) {rec : Rec} {p : Str} {strs
     have el : mkqsLcp p.length pivot maxLt
         ((keys.filter (pivot < ·)).foldl (fun a b => if b < a then b else a) (BitVec.allOnes 64))
         lt.length eq.length gt.length ((rlt.append req).append rgt).lcp =
-        (rlt.lcp ++ req.lcp.set 0 (if lt = [] then (req.lcp.head?).getD 0 else p.length + lcpKeyType maxLt pivot)) ++
-          rgt.lcp.set 0 (if lt ++ eq = [] then (rgt.lcp.head?).getD 0 else p.length + lcpKeyType pivot
-            ((keys.filter (pivot < ·)).foldl (fun a b => if b < a then b else a) (BitVec.allOnes 64))) := by
-      simp only [hle_ne, if_false, Res.append, mkqsLcp, gt_iff_lt]
+        (rlt.lcp ++ req.lcp.set 0 (if lt = [] then (req.lcp.head?).getD 0 else lcpT (p.length + lcpKeyType maxLt pivot))) ++
+          rgt.lcp.set 0 (if lt ++ eq = [] then (rgt.lcp.head?).getD 0 else lcpT (p.length + lcpKeyType pivot
+            ((keys.filter (pivot < ·)).foldl (fun a b => if b < a then b else a) (BitVec.allOnes 64)))) := by
+      simp only [hle_ne, if_false, Res.append, mkqsLcp, gt_iff_lt, u8_lcpKeyType]
       have hgpos : 0 < gt.length := List.length_pos_iff.2 hgtne
       simp only [hgpos, if_true, setLcp]
       by_cases hlte : lt = []
@@ -569,7 +570,7 @@ theorem mkqsBody_safe {env : Env} (henv : EnvOk env) {rec : Rec} {p : Str} {strs
       · have hlp : 0 < lt.length := List.length_pos_iff.2 hlte
         simp only [hlp, if_true, hlte, if_false]
         rw [← hl1, set_mid _ _ _ _ hreqlne]
-        have : rlt.lcp.length + eq.length = (rlt.lcp ++ req.lcp.set 0 (p.length + lcpKeyType maxLt pivot)).length := by
+        have : rlt.lcp.length + eq.length = (rlt.lcp ++ req.lcp.set 0 (lcpT (p.length + lcpKeyType maxLt pivot))).length := by
           simp [hl2]
         rw [this, List.set_append_right _ _ (Nat.le_refl _), Nat.sub_self]
     rw [eo, el]; exact hfin
